@@ -1,5 +1,5 @@
 (** C02 -- TL1 readers accept only canonical encodings.  Property theorems only. *)
-From TLV Require Import Prim.PrimModel Prim.PrimProofs Tl1.Tl1Model Tl1.Tl1Proofs Tl1.Tl1Canon.
+From TLV Require Import Prim.PrimModel Prim.PrimProofs Tl1.Tl1Model Tl1.Tl1Proofs Tl1.Tl1Canon Tl1.Tl1Dict.
 Open Scope N_scope.
 
 (** For every well-formed schema without map-backed dictionaries, every type (bare or boxed),
@@ -23,6 +23,27 @@ Theorem C02_dict_sorted_input_unchanged : forall kp es,
   keys_sorted kp es = true -> fold_left (fun a e => dict_insert kp e a) es [] = es.
 Proof. intros kp es H. exact (dict_fold_sorted kp es [] H). Qed.
 Print Assumptions C02_dict_sorted_input_unchanged.
+
+
+(** the dictionary clause of the property, at the level of the decoded entry list: whatever entry
+    list was received (any order, any duplicates; keys of the key primitive's shape, which is what
+    [dec_prim kp] produces), the decoded dictionary is strictly sorted by the writer's key order --
+    so the writer accepts it and re-emits it sorted with duplicates removed -- and holds for every
+    key the LAST received entry with that key (Go map assignment). *)
+Theorem C02_dict_reemitted_sorted_without_duplicates : forall kp es,
+  shaped kp es ->
+  keys_sorted kp (fold_left (fun a e => dict_insert kp e a) es []) = true.
+Proof. intros kp es H. exact (proj1 (dict_fold_is_sorted kp es [] H (Forall_nil _) eq_refl)). Qed.
+Print Assumptions C02_dict_reemitted_sorted_without_duplicates.
+
+Theorem C02_dict_last_entry_wins : forall kp k es,
+  key_shape kp k -> shaped kp es ->
+  find_key kp k (fold_left (fun a e => dict_insert kp e a) es []) = find_last kp k es.
+Proof.
+  intros kp k es Hk H. rewrite (dict_fold_last_wins kp k es [] Hk H (Forall_nil _) eq_refl).
+  destruct (find_last kp k es); reflexivity.
+Qed.
+Print Assumptions C02_dict_last_entry_wins.
 
 (** unknown constructor tags are rejected *)
 Theorem C02_unknown_union_tag_rejected : forall san s t vars tag fuel ps r,
@@ -74,3 +95,10 @@ Example C02_ex : wf_schema ex2_schema = true /\ no_dict ex2_schema = true /\
   dec1 9 true ex2_schema 5 true [] [1;0;0;0; 23;0;0;0] = Some Reject /\
   dec1 9 true ex2_schema 5 true [] [1;0;0;0; 22;0;0;0; 1;65;0;1] = Some Reject.
 Proof. vm_compute. repeat split; reflexivity. Qed.
+
+Example C02_ex_dict :
+  fold_left (fun a e => dict_insert PInt e a)
+    [VStruct [Some (VNum 5); Some (VNum 1)]; VStruct [Some (VNum 4294967295); Some (VNum 2)];
+     VStruct [Some (VNum 5); Some (VNum 3)]] []
+  = [VStruct [Some (VNum 4294967295); Some (VNum 2)]; VStruct [Some (VNum 5); Some (VNum 3)]].
+Proof. vm_compute. reflexivity. Qed.
